@@ -140,6 +140,20 @@ def cores(repo):
                 "(identity, csvpath) pairs `get_identified_paths_in` returns — an object list of the world, `[0]` the identity, `[1]` the csvpath."),
          [("PathsManager", "_get_to"), ("PathsManager", "_get_from"), ("PathsManager", "_find_one")]),
         (py2lean.Core(
+            repo, "Last",
+            [("csvpath/matching/functions/lines/last.py", "Last", ["_decide_match"]),
+             ("csvpath/util/line_monitor.py", "LineMonitor", ["is_last_line"])],
+            heap=True,
+            ignore=LOGGING,
+            links={("Last", "self.matcher.csvpath.line_monitor"): "LineMonitor"},
+            oracles={"self.matcher.csvpath.scanner.is_last": "is_last"},
+            # (the argument `skip=[self]` is the function itself: not part of the record)
+            opaque_text={"self.children[0].matches": ("child_matches", False)},
+            observe_text={"len(self.children)"},
+            doc="C13: last() (`Last._decide_match`, `LineMonitor.is_last_line`): it holds on the file's last line and on the last line the scan "
+                "part selects, and runs what it encloses there with the freeze lifted (heap mode; `scanner.is_last` is a question to the scanner)."),
+         [("Last", "_decide_match")]),
+        (py2lean.Core(
             repo, "Results",
             [("csvpath/managers/results/results_manager.py", "ResultsManager", ["is_valid", "has_lines"])],
             heap=True,
